@@ -97,7 +97,7 @@ def evaluate(plan, ctx):
     return Result(nt, ev)
 
 
-SUBCHECKS = [SubCheck("replay", strategy, evaluate, quick=1500, thorough=25000)]
+SUBCHECKS = [SubCheck("replay", strategy, evaluate, quick=3000, thorough=25000)]
 KNOWN = {}
 
 MANIFEST = {
